@@ -80,6 +80,7 @@ class World:
         gc.collect()
         urwid.CanvasCache.clear()
         gc.collect()
+        gc.freeze()  # what earlier histories left behind is plain data: keep it out of the per-event collections
         stubs.set_term(size=(cols, rows), cell=CELL)
         stubs.set_identity(ident)
         for name in ("_ti_free_z_indexes", "_ti_next_z_index", "_ti_get_z_index"):
